@@ -124,6 +124,16 @@ CHECKS = {
         note="The back end contract (one signal per id in request order; rayon's ordered par_iter; for FST that a signal's callbacks do not depend on the filter) is a parameter of the model: trusted and "
              "exercised by the differential run, not proved. Universes are truncated to the first 24 signals of a file to keep the alone-load oracle affordable.",
     ),
+    "C16": dict(
+        technique="Lean 4 proof (acceptance / rejection theorems for is_vcd, classification of white space, termination of the FST block walk under a forward-seek hypothesis, kernel-evaluated counter-examples) + exhaustive small-string differential under a watchdog",
+        text="Lean theorems C16_unknown_command_rejected, C16_vcd_accepted, C16_whitespace_unknown, C16_fst_walk_terminates_partial, and the kernel-evaluated counter-examples C16_fst_walk_hangs (F10) and "
+             "C16_empty_is_fst (F9). The real detection is run on all strings of length <= 1, length 2 over 40 bytes, length <= 4 over a 12-byte alphabet, prefixes of every magic, header variants, FST-like block chains, "
+             "mutations and every corpus file, each under catch_unwind and a 3 s watchdog; for inputs classified Unknown, viewers::read_header must return UnknownFileFormat with a position-tracking reader back at 0.",
+        design_ref="DESIGN.md section 5 / C16",
+        note="is_fst_file is dependency code (fst-reader 0.8.7), modelled from its source; `never hangs` and `empty is Unknown` are false for it (known findings F10, F9). Seeks beyond 2^31 are excluded from the comparison: "
+             "file systems reject offsets beyond their maximum file size while in-memory readers accept them, so path- and reader-based detection legitimately differ there (observed, documented in DESIGN.md). "
+             "What happens after a file is classified as one of the formats is outside this property.",
+    ),
 }
 
 NOT_YET = "check not built yet in this round (machinery under construction; see DESIGN.md section 10 for the order of work)"
